@@ -389,11 +389,32 @@ def find_impl(F, trait, t):
     return best
 
 
-def used_self_paths(F, b):
-    """Ordered field paths of `self` (argument 1) that the body reads: [(names tuple, field type idx)]."""
+def _self_paths_in(F, b, alias):
+    """Field paths read through locals that point at `self`: alias = {local: number of derefs down to Self}."""
+    alias = dict(alias)
     out = []
-    for bl in b["blocks"]:
-        for s in bl["stmts"]:
+    changed = True
+    # propagate aliases through plain copies and single derefs (`_6 = copy (*_5)`)
+    while changed:
+        changed = False
+        for bl in b["blocks"]:
+            for s in bl["stmts"]:
+                if s["k"] != "assign" or s["lhs"]["p"] or s["rv"]["k"] != "use":
+                    continue
+                pl = operand_place(s["rv"]["op"])
+                if pl is None or pl["l"] not in alias:
+                    continue
+                d = alias[pl["l"]]
+                derefs = 0
+                rest = list(pl["p"])
+                while rest and rest[0] == "deref":
+                    derefs += 1
+                    rest = rest[1:]
+                if not rest and derefs < d and s["lhs"]["l"] not in alias:
+                    alias[s["lhs"]["l"]] = d - derefs
+                    changed = True
+    for bi, bl in enumerate(b["blocks"]):
+        for si, s in enumerate(bl["stmts"]):
             if s["k"] != "assign":
                 continue
             rv = s["rv"]
@@ -402,19 +423,66 @@ def used_self_paths(F, b):
                 pl = rv["place"]
             elif rv["k"] == "use":
                 pl = operand_place(rv["op"])
-            if pl is None or pl["l"] != 1 or not pl["p"] or pl["p"][0] != "deref":
+            if pl is None or pl["l"] not in alias:
+                continue
+            d = alias[pl["l"]]
+            rest = list(pl["p"])
+            k = 0
+            while rest and rest[0] == "deref" and k < d:
+                rest = rest[1:]
+                k += 1
+            if k != d:
                 continue
             names = []
             fty = None
-            for pe in pl["p"][1:]:
+            for pe in rest:
                 if isinstance(pe, dict) and "f" in pe:
                     names.append(pe.get("name", str(pe["f"])))
                     fty = pe["ty"]
                 else:
                     break
-            if names and (tuple(names), fty) not in out:
-                out.append((tuple(names), fty))
-    # maximal paths only
+            if names:
+                out.append(((bi, si), tuple(names), fty))
+    return out
+
+
+def used_self_paths(F, b):
+    """Ordered field paths of `self` (argument 1) that the body - and the closures it creates over `self` - reads:
+    [(names tuple, field type idx)], maximal paths only."""
+    found = list(_self_paths_in(F, b, {1: 1}))
+    # closures capturing self
+    for bi, bl in enumerate(b["blocks"]):
+        for si, s in enumerate(bl["stmts"]):
+            if s["k"] == "assign" and s["rv"]["k"] == "agg" and s["rv"].get("agg") == "closure":
+                cb = F.body(s["rv"]["def"])
+                if cb is None:
+                    continue
+                B = cfg.Body(b)
+                for k, op in enumerate(s["rv"]["ops"]):
+                    o = B.origin(op)
+                    depth = None
+                    if o.get("kind") == "arg" and o["arg"] == 1:
+                        depth = 1
+                    elif o.get("kind") == "rvalue" and o["rv"]["k"] == "ref" and o["rv"]["place"]["l"] == 1 and not o["rv"]["place"]["p"]:
+                        depth = 2
+                    if depth is None:
+                        continue
+                    # inside the closure the capture is field k of the environment (local 1, by value or behind one reference)
+                    env_ref = F.ty(cb["locals"][1]["ty"])["k"] == "ref"
+                    for bl2 in cb["blocks"]:
+                        for s2 in bl2["stmts"]:
+                            if s2["k"] == "assign" and not s2["lhs"]["p"] and s2["rv"]["k"] == "use":
+                                pl = operand_place(s2["rv"]["op"])
+                                if pl is not None and pl["l"] == 1:
+                                    proj = [pe for pe in pl["p"] if pe != "deref"]
+                                    if len(proj) == 1 and isinstance(proj[0], dict) and proj[0].get("adt") == "(closure)" and proj[0].get("f") == k:
+                                        for pos, names, fty in _self_paths_in(F, cb, {s2["lhs"]["l"]: depth}):
+                                            found.append(((bi, si), names, fty))
+    found.sort(key=lambda x: x[0])
+    out = []
+    for _pos, p, ty in found:
+        if (p, ty) not in out:
+            out.append((p, ty))
     keep = []
     for p, ty in out:
         if not any(q != p and q[: len(p)] == p for q, _ in out):
@@ -514,10 +582,96 @@ def rule_foot(ctx, rep):
     rep.floor("R-FOOT", 8, "eq/ord/hash impl groups on HeaderSlice (generic and length-carrying), HeaderWithLength, Protected")
 
 
+ORDERING = "core::cmp::Ordering"
+
+
+def rule_lex(ctx, rep):
+    """Orderings of payload structs are lexicographic: a later key is compared (and can decide or fail) only when every earlier key
+    compared Equal - via a tuple/derive delegation, a branch on the earlier result being Equal, or `Ordering::then_with`."""
+    for tag, F, E in ctx.each():
+        for im in F.impls:
+            tr = im.get("trait")
+            if tr not in ("core::cmp::PartialOrd", "core::cmp::Ord"):
+                continue
+            st = F.ty(im["self_ty"])
+            if st["k"] != "adt" or not st["local"] or F.path_to_handle.get(st["path"]):
+                continue
+            for it in im["items"]:
+                if it["name"] not in ("partial_cmp", "cmp"):
+                    continue
+                b = F.body(it["key"])
+                if b is None:
+                    continue
+                B = cfg.Body(b)
+                leaves = [(bi, t) for bi, t in B.calls() if t.get("callee_trait") in ("core::cmp::PartialOrd", "core::cmp::Ord") and t.get("callee_name") in ("partial_cmp", "cmp")]
+                ik = "%s :: %s::%s" % (st["s"], tr.split("::")[-1], it["name"])
+                if len(leaves) <= 1:
+                    rep.ok("R-LEX", ik, "single delegation (tuple / wrapped value)", cfg=tag, nontrivial=len(leaves) == 1)
+                    continue
+                leaves.sort(key=lambda x: x[0])
+                ok = True
+                why = None
+                for (pbi, pt), (bi, t) in zip(leaves, leaves[1:]):
+                    # switches on an Ordering-typed discriminant derived from the previous comparison's result
+                    cut = set()
+                    for sj, bl in enumerate(b["blocks"]):
+                        tt = bl["term"]
+                        if tt["k"] != "switch":
+                            continue
+                        pl = operand_place(tt["discr"])
+                        if pl is None:
+                            continue
+                        d = B.single_def(pl["l"])
+                        if not d or d[0] != "assign" or d[3]["k"] != "discr":
+                            continue
+                        src = d[3]["place"]
+                        if "ty" not in src or not F.is_adt(src["ty"], ORDERING):
+                            continue
+                        if pt["dest"]["l"] not in _roots(B, src["l"], set()):
+                            continue
+                        for v, tgt in tt["arms"]:
+                            if v == 0:
+                                cut.add((sj, tgt))
+                    from . import c03
+
+                    if not cut or c03.reachable_without(B, cut, set(), bi):
+                        ok = False
+                        why = "the comparison of a later key (line %s) runs - and can decide or make the result `None` - although an earlier key (line %s) may already differ: the order is not `earlier key first, later key only on a tie`" % (t["span"]["line"], pt["span"]["line"])
+                if ok:
+                    rep.ok("R-LEX", ik, cfg=tag)
+                else:
+                    rep.bad("R-LEX", ik, why, F.loc(b), tag)
+    rep.floor("R-LEX", 4, "derived and hand-written orderings of the header-slice types")
+
+
+def _roots(B, l, seen):
+    """Locals whose value flows (by moves, projections, calls taking it) into local l."""
+    if l in seen:
+        return seen
+    seen.add(l)
+    for d in B.defs().get(l, []):
+        if d[0] == "call":
+            for a in d[2]["args"]:
+                pl = operand_place(a)
+                if pl is not None:
+                    _roots(B, pl["l"], seen)
+        else:
+            rv = d[3]
+            pl = None
+            if rv["k"] in ("use", "cast"):
+                pl = operand_place(rv["op"])
+            elif rv["k"] in ("ref", "rawptr", "discr"):
+                pl = rv["place"]
+            if pl is not None:
+                _roots(B, pl["l"], seen)
+    return seen
+
+
 def run(ctx, rep):
     rule_deleg(ctx, rep)
     rule_whole(ctx, rep)
     rule_foot(ctx, rep)
+    rule_lex(ctx, rep)
 
 
 def main(argv):
